@@ -489,5 +489,8 @@ PROPS["C12"]["explanation"] += " (SPECIALMATCH) every tag match of HTIfind_dd ac
 PROPS["C12"]["rules"] = PROPS["C12"]["rules"] + [rules_dd.rule_tag_tree_key_is_base]
 PROPS["C12"]["explanation"] += " (BASETAGKEY) every look-up in the tag tree uses a key reduced with BASETAG()."
 
+PROPS["C18"]["rules"] = PROPS["C18"]["rules"] + [rules_repack.rule_attr_copy_unconditional, rules_repack.rule_copy_interlace_pair]
+PROPS["C18"]["explanation"] = PROPS["C18"]["explanation"].replace(" Not decided (value-level)", " (ATTRCOND) attribute-copy calls are not conditioned on a property of the object's data; (RWIL) Vdata records are read and written with the same interlace argument. Not decided (value-level)")
+
 NOT_APPLICABLE = {}
 
